@@ -3,7 +3,7 @@
    and what the allocation model of PyIdxModel.v (vec_resize / stripe_alloc) predicts for it.
    Executable definitions and the specification only; lemmas in PyIdxReuse.v. *)
 From Coq Require Import List Arith Bool.
-From LMPyIdx Require Import PyIdxModel.
+From LMPyIdx Require Import PyIdxModel PyIdxSpec.
 Import ListNotations.
 
 (* per calculate() of the history: Some true = __getbuffer__ hands out another address than
@@ -36,3 +36,20 @@ Fixpoint alloc_steps (k : nat) (pred : list bool) (moves : alloc_obs) : list nat
       if is_move m then (if p then (k :: exp, unexp) else (exp, k :: unexp)) else (exp, unexp)
   | _, _ => ([], [])
   end.
+
+(* ---------- well-formedness of the logical (reference) object, decided ----------
+   The logical object of a case is computed by the Python harness from the constructor inputs;
+   the theorems about check_C18 / model_obs assume lobj_wf.  The driver refuses (DIFF) a reference
+   object that is not well formed instead of checking against it. *)
+Section WfB.
+  Context {T : Type}.
+  Definition lobj_wfb (o : @lobj T) : bool :=
+    match o with
+    | LSeq k _ => kind_eqb k KEnc || kind_eqb k KDist
+    | LRows k K t =>
+        (kind_eqb k KCount || kind_eqb k KWeight || kind_eqb k KScoring) &&
+        forallb (fun r => length r =? K) t
+    | LStriped k R pos maxi =>
+        (kind_eqb k KStriped || kind_eqb k KScores) && (length pos =? R * LANES) && (maxi <=? R * LANES)
+    end.
+End WfB.
